@@ -1,0 +1,80 @@
+//! Read-only observation hooks for external verification tooling. Compiled
+//! only with the cargo feature `verif`; nothing here changes behaviour.
+
+use std::cell::RefCell;
+
+/// One entry of the thread-local observation log.
+#[derive(Debug, Clone, PartialEq, Eq)]
+pub enum Entry {
+    /// `transition` was invoked for machine `mi` with internal event index
+    /// `event` while the machine was in `state`.
+    Trans { mi: usize, event: usize, state: usize },
+    /// the uniform draw in [0,1) made by `State::sample_state` (f32 bits)
+    Draw { bits: u32 },
+    /// the next state sampled in `transition`
+    Sampled { mi: usize, event: usize, next: usize },
+    /// raw value returned by the distribution sampler, before clamping (f64 bits)
+    DistRaw { bits: u64 },
+}
+
+thread_local! {
+    static LOG: RefCell<Vec<Entry>> = const { RefCell::new(Vec::new()) };
+    static ENABLED: RefCell<bool> = const { RefCell::new(false) };
+    static IN_DIST: RefCell<bool> = const { RefCell::new(false) };
+}
+
+/// Enable or disable logging on this thread.
+pub fn enable(on: bool) {
+    ENABLED.with(|e| *e.borrow_mut() = on);
+    set_in_dist(false);
+}
+
+/// Append an entry if logging is enabled on this thread.
+pub fn push(e: Entry) {
+    if ENABLED.with(|x| *x.borrow()) {
+        LOG.with(|l| l.borrow_mut().push(e));
+    }
+}
+
+/// Take and clear the log of this thread.
+pub fn take() -> Vec<Entry> {
+    LOG.with(|l| std::mem::take(&mut *l.borrow_mut()))
+}
+
+pub(crate) fn in_dist() -> bool {
+    IN_DIST.with(|x| *x.borrow())
+}
+
+pub(crate) fn set_in_dist(v: bool) {
+    IN_DIST.with(|x| *x.borrow_mut() = v);
+}
+
+/// Per-machine runtime state as seen by the framework.
+#[derive(Clone)]
+pub struct RuntimeSnapshot<T: crate::time::Instant> {
+    pub current_state: usize,
+    pub state_limit: u64,
+    pub padding_sent: u64,
+    pub normal_sent: u64,
+    pub blocking_duration: T::Duration,
+    pub machine_start: T,
+    pub allowed_blocked_microsec: T::Duration,
+    pub counter_a: u64,
+    pub counter_b: u64,
+}
+
+/// Framework state as seen after a call.
+#[derive(Clone)]
+pub struct Snapshot<T: crate::time::Instant> {
+    pub current_time: T,
+    pub runtime: Vec<RuntimeSnapshot<T>>,
+    pub normal_sent_packets: u64,
+    pub padding_sent_packets: u64,
+    pub blocking_duration: T::Duration,
+    pub blocking_started: T,
+    pub blocking_active: bool,
+    /// None, Some(None) = all machines, Some(Some(i)) = all except i
+    pub signal_pending: Option<Option<usize>>,
+    pub counter_zeroed_once: (bool, bool),
+    pub framework_start: T,
+}
